@@ -20,6 +20,13 @@
 (*             the Overloaded constraint; env.rs: lookup_inherent_method    *)
 (*             with its exact-key-first order)                              *)
 (*                                                                          *)
+(* (The typer decides acceptance and records the receiver type a call was   *)
+(* resolved with - the full type for x.m(), the bare constructor for        *)
+(* T::m(x); which Go function runs follows from that recorded type in mono  *)
+(* and names.rs.  Algo states the observable outcome of both together: a    *)
+(* scratch mutation that swaps the two lookups of lookup_inherent_method    *)
+(* alone changes no outcome, one that takes the first of several bound      *)
+(* candidates is rejected by the binding - DESIGN 11.9.)                    *)
 (* and TLC checks on every (configuration, form):                           *)
 (*   AlgoIsMeaning  the lookup order of the code never decides anything the *)
 (*                  declarative reading does not (outside the named         *)
@@ -55,9 +62,11 @@ EXTENDS Integers, Sequences, FiniteSets, TLC, Json
 CONSTANT AllowOverlap       \* TRUE: configurations with `impl[T] G[T]` and `impl G[int32]` both defining m are included
 
 Traits == {"A", "B"}
-Recv == {"i", "S", "Gi"}
-InhKeys(r) == IF r = "i" THEN {} ELSE IF r = "S" THEN {"exact@S"} ELSE {"exact@Gi", "exact@Gb", "constr@G"}
-Nominal(r) == r # "i"
+Recv == {"i", "str", "S", "E", "Gi"}       \* int32, string, a struct, an enum, an instance of a generic struct
+Plain == {"S", "E"}                       \* nominal, not generic: one inherent key `impl S` / `impl E`
+ExactOf(x) == "exact@" \o x
+InhKeys(x) == IF x \in {"i", "str"} THEN {} ELSE IF x \in Plain THEN {ExactOf(x)} ELSE {"exact@Gi", "exact@Gb", "constr@G"}
+Nominal(x) == x \notin {"i", "str"}
 NoBs == {}
 Bounds == (SUBSET Traits) \ {{}}
 
@@ -93,8 +102,8 @@ TImpl(t) == t \o "@" \o r
 (* Meaning: candidates, then exactly-one *)
 
 \* inherent blocks whose type is the receiver's type (x.m()) / whose head is the path's name (T::m(x))
-InhFor == IF r = "S" THEN inh \cap {"exact@S"} ELSE IF r = "Gi" THEN inh \cap {"exact@Gi", "constr@G"} ELSE {}
-InhForPath == IF r = "S" THEN inh \cap {"exact@S"} ELSE IF r = "Gi" THEN inh \cap {"constr@G"} ELSE {}
+InhFor == IF r \in Plain THEN inh \cap {ExactOf(r)} ELSE IF r = "Gi" THEN inh \cap {"exact@Gi", "constr@G"} ELSE {}
+InhForPath == IF r \in Plain THEN inh \cap {ExactOf(r)} ELSE IF r = "Gi" THEN inh \cap {"constr@G"} ELSE {}
 
 One(S, none, many) == IF S = {} THEN Rej(none) ELSE IF Cardinality(S) = 1 THEN Run(CHOOSE x \in S : TRUE) ELSE Rej(many)
 
@@ -119,11 +128,11 @@ LookupInherent(exactKey, constrKey) ==
   IF exactKey \in inh THEN exactKey ELSE IF constrKey \in inh THEN constrKey ELSE "none"
 
 AlgoDot ==      \* EField arm: receiver's full type
-  LET h == IF r = "S" THEN LookupInherent("exact@S", "-") ELSE IF r = "Gi" THEN LookupInherent("exact@Gi", "constr@G") ELSE "none"
+  LET h == IF r \in Plain THEN LookupInherent(ExactOf(r), "-") ELSE IF r = "Gi" THEN LookupInherent("exact@Gi", "constr@G") ELSE "none"
   IN IF h # "none" THEN Run(h) ELSE Rej("not-found")      \* a concrete receiver is no TParam: "Method m not found"
 
 AlgoTyq ==      \* static member, the path is no trait: receiver_ty = TStruct{name}: no arguments, so only `impl S` is an exact key
-  LET h == IF r = "S" THEN LookupInherent("exact@S", "-") ELSE LookupInherent("-", "constr@G")
+  LET h == IF r \in Plain THEN LookupInherent(ExactOf(r), "-") ELSE LookupInherent("-", "constr@G")
   IN IF h # "none" THEN Run(h) ELSE Rej("not-found")
 
 \* static member whose path is a trait t, receiver of static type `view` ("concrete", "param", "dyn")
